@@ -90,10 +90,23 @@ def cycle_broken(ctx) -> bool:
     res = False
     rh = ctx.func("server.GopherRequestHandler.handle")
     if rh is not None:
+        cands = []
         for n in ast.walk(rh.node):
             if isinstance(n, ast.Call) and isinstance(n.func, ast.Attribute) and n.func.attr == "handle" \
                     and dotted(n.func.value) not in ("self", "super()"):
-                proto = norm(n.func.value)
+                cands.append((n, norm(n.func.value)))
+            elif isinstance(n, ast.Call) and isinstance(n.func, ast.Attribute) and dotted(n.func.value) in ("self", "cls") and rh.cls is not None:
+                # self._serve(protocol): a helper of the connection handler that calls <its parameter>.handle()
+                g_ = ctx.prog.resolve_method(rh.cls, n.func.attr)
+                if g_ is not None and g_ is not rh:
+                    static_ = any(isinstance(d_, ast.Name) and d_.id == "staticmethod" for d_ in g_.node.decorator_list)
+                    params_ = g_.params if static_ else g_.params[1:]
+                    for x in ast.walk(g_.node):
+                        if isinstance(x, ast.Call) and isinstance(x.func, ast.Attribute) and x.func.attr == "handle" and isinstance(x.func.value, ast.Name) \
+                                and x.func.value.id in params_ and params_.index(x.func.value.id) < len(n.args):
+                            cands.append((n, norm(n.args[params_.index(x.func.value.id)])))
+        for n, proto in cands:
+            if True:
                 from ..structure import bind_params
 
                 def drops(stmts, bind, depth=0):
@@ -240,11 +253,21 @@ def check(ctx, rep):
         rep.analysed(rh.qualname)
         hcalls = [c for c, t in eff.calls_of(rh, rh.cls) if isinstance(c.func, ast.Attribute) and c.func.attr == "handle"
                   and dotted(c.func.value) not in ("self", "super()")]
+        holder_of = {id(c): rh for c in hcalls}
+        if not hcalls and rh.cls is not None:
+            # the call lives in a helper method of the connection handler (handle = try: self._serve(p) finally: ...)
+            for c0, t0 in eff.calls_of(rh, rh.cls):
+                if t0.kind == "repo" and t0.bound_cls is not None and len(t0.funcs) == 1 and t0.funcs[0] is not None:
+                    g0 = t0.funcs[0]
+                    for c1, _t1 in eff.calls_of(g0, rh.cls):
+                        if isinstance(c1.func, ast.Attribute) and c1.func.attr == "handle" and dotted(c1.func.value) not in ("self", "super()"):
+                            hcalls.append(c1)
+                            holder_of[id(c1)] = g0
         problems = []
         if not hcalls:
             problems.append("protocol.handle() is never called")
         for c in hcalls:
-            tries = enclosing_tries(rh.node, c)
+            tries = enclosing_tries(holder_of[id(c)].node, c)
             hs = [h for tr in tries for h in tr.handlers]
             if not any(catches(h, "Exception") for h in hs):
                 problems.append("an exception raised while answering (other than an I/O error) escapes the connection handler")
@@ -252,7 +275,7 @@ def check(ctx, rep):
                 problems.append("an I/O error while writing the response escapes the connection handler")
             proto = norm(c.func.value)
             for h in hs:
-                if handler_completes(Walker(prog, ctx.resolver), rh, h, rh.cls) == [] and any(isinstance(x, ast.Raise) for x in ast.walk(h)):
+                if handler_completes(Walker(prog, ctx.resolver), holder_of[id(c)], h, rh.cls) == [] and any(isinstance(x, ast.Raise) for x in ast.walk(h)):
                     problems.append(f"`except {norm(h.type) if h.type else ''}` re-raises")
                 logs = [x for x in ast.walk(h) if isinstance(x, ast.Call) and (dotted(x.func) or "").endswith("GopherExceptions.log")]
                 if not logs:
@@ -545,6 +568,15 @@ class _PathObj:
         return _PathObj(f"{self.path}[{i!r}]")
 
     def pgv_attr(self, name):
+        if name in ("__cause__", "__context__"):
+            # the failure that is logged happened while another one was being handled (an error page that could not be sent)
+            from ..paths import Const as _Const
+
+            return _Const(None) if self.path.startswith("what led to ") else _PathObj("what led to " + self.path)
+        if name in ("__suppress_context__",):
+            from ..paths import Const as _Const
+
+            return _Const(False)
         if name in ("__name__", "__qualname__") and self.path.startswith("type("):
             return f"<class of {self.path[5:-1]}>"
         if name == "__class__":
@@ -586,7 +618,7 @@ def _log_line_evaluation(ctx, lg, with_proto=True):
         return None
 
     w = Walker(prog, ctx.resolver, call_value=cv, exact_loops=True, unroll=4,
-               inline=lambda fn, t, d: d < 3 and fn.module is lg.module and fn is not lg)
+               inline=lambda fn, t, d: d < 3 and fn.module.name.startswith("pygopherd") and fn is not lg and fn.name != "log")
     holder["w"] = w
     env = {params[0]: Const(_PathObj("exception")), params[1]: Const(_PathObj("protocol") if with_proto else None)}
     if len(params) > 2:
